@@ -1,7 +1,20 @@
 (* C01 with futures (one queue): operations never overlap, also across awaits.  Layer L2.  The whole statement [C01_full]
    (Main.v) is proved, for ALL programs, event timings and schedules.
-   Not covered by this layer: several queues / nested operations (L1, L3), the steal path of sync_background (L1), panics (L1). *)
-From L2 Require Import Model Own Jobs Main.
+   Not covered by this layer: several queues / nested operations (L1, L3), the steal path of sync_background (L1), panics (L1).
+   The statement is about [run T] = [runF code_ffacts T] (Facts.runF_code; Inst.gen_ffacts_code: the facts read from the source
+   are code_ffacts).  Two of the order facts of Model.ffacts are NEEDED for it ([C01_exclusive_F F] = clauses (2),(3) of C01_full
+   for the model with facts F): with the Pending job requeued only after wake_with, or with a SchedulerFuture whose Drop resets
+   the queue state, two operations overlap (Refute.v: concrete runs under the generated tables, described there). *)
+From L2 Require Import Model Own Jobs Main Refute.
 Theorem C01_exclusive_across_awaits_L2 : C01_full.
 Proof. exact C01_main. Qed.
 Print Assumptions C01_exclusive_across_awaits_L2.
+Theorem C01_with_code_facts_L2 : C01_exclusive_F code_ffacts.
+Proof. exact C01_exclusive_code. Qed.
+Theorem C01_needs_requeue_before_park_refuted_L2 : ~ C01_exclusive_F requeue_after_wake_with.
+Proof. exact C01_exclusive_needs_requeue_before_park. Qed.
+Theorem C01_needs_inert_future_drop_refuted_L2 : ~ C01_exclusive_F future_drop_resets_state.
+Proof. exact C01_exclusive_needs_inert_future_drop. Qed.
+Print Assumptions C01_with_code_facts_L2.
+Print Assumptions C01_needs_requeue_before_park_refuted_L2.
+Print Assumptions C01_needs_inert_future_drop_refuted_L2.
